@@ -43,7 +43,7 @@ BOXES_SEALED = BOXES + [((0.76, 0.76), (0.80, 1.0)), ((0.76, 0.76), (1.0, 0.80))
 # the two-block world of C04's environment 7 (validity resolution 0.01, path-length objective on the problem definition):
 # the configuration in which LazyLBTRRT with two goal states stops consulting its termination condition (F140)
 BOXES_BLOCKS = [((0.3, 0.0), (0.45, 0.35)), ((0.45, 0.45), (0.7, 0.7))]
-ENVS = {"open": BOXES, "sealed": BOXES_SEALED, "blocks": BOXES_BLOCKS}
+ENVS = {"open": BOXES, "sealed": BOXES_SEALED, "blocks": BOXES_BLOCKS, "free": []}   # "free": no obstacle at all
 ENV_OPTS = {"blocks": " res=%s obj=len" % F(0.01)}
 RETURN_LIMIT_S = 15      # harness watchdog: wall seconds without return after ptc fired / without any ptc evaluation
 QA = ((0.1, 0.1), (0.9, 0.9))          # first query
@@ -67,7 +67,7 @@ AFTER_MEASURED = {
 AFTER_DEFAULT = 8
 
 REPORT_LOCK = threading.Lock()     # worker threads: Check.report / build_harness are not thread-safe
-HIST_ENV = {"clearsol-sealed": "sealed", "multigoal-blocks": "blocks"}
+HIST_ENV = {"clearsol-sealed": "sealed", "multigoal-blocks": "blocks", "free-exact": "free"}
 CLEARSOL_KS = [0, 1, 2, 5]
 SEALED_K = 250
 ROADMAP = {"PRM", "PRMstar", "LazyPRM", "LazyPRMstar", "SPARS", "SPARStwo"}   # override setProblemDefinition (clearQuery)
@@ -105,6 +105,10 @@ def q(op, query, dim=2):
     return "%s %s %s %s" % (op, pt(query[0], dim), pt(query[1], dim), F(THR))
 
 
+def qx(op, query, thr, dim=2):
+    return "%s %s %s %s" % (op, pt(query[0], dim), pt(query[1], dim), F(thr))
+
+
 def qg(op, start, goals, dim=2):
     return "%s %s %d %s %s" % (op, pt(start, dim), len(goals), " ".join(pt(g, dim) for g in goals), F(THR))
 
@@ -139,6 +143,9 @@ def histories(tier):
         "multigoal": lambda k, K: [qg("setpdg", QA[0], [QA[1], (0.55, 0.2)]), "solve %d" % k, "solve %d" % k, "solve %d" % K,
                                    "getpd", "solve %d" % k, "clear", "solve %d" % k],
         "multigoal-blocks": lambda k, K: [qg("setpdg", QA[0], [QA[1], (0.55, 0.2)]), "solve %d" % k, "solve %d" % K, "solve %d" % k],
+        # no obstacle at all and an EXACT goal state (threshold = machine epsilon, what setStartAndGoalStates defaults to):
+        # the straight segment is the optimum, cbest == cmin, the informed set has measure zero
+        "free-exact": lambda k, K: [qx("setpd", QA, 2.220446049250313e-16), "solve %d" % k, "solve %d" % K, "solve %d" % k],
         "swap": lambda k, K: [q("setpd", QA), "solve %d" % K, "clear", q("setsg", QSWAP), "solve %d" % k, "solve %d" % K],
         "invalid-start": lambda k, K: [q("setpd", QINV), "solve %d" % k, "addstart " + pt(QA[0]), "solve %d" % k,
                                        "solve %d" % K],
@@ -396,7 +403,7 @@ def judge_run(ck, rn, planner, seed, hname, k, K, ops, stats):
                 for s in parse_new(d.get("new", "[]")):
                     if not s["motions"]:
                         stats["motion-invalid"][planner] = stats["motion-invalid"].get(planner, 0) + 1
-    return {"planner": planner, "seed": seed, "history": hname, "k": k, "K": K, "ops": ops, "script": script, "out": out,
+    return {"planner": planner, "seed": seed, "history": hname, "k": k, "K": K, "ops": ops, "script": script, "out": out, "env": env,
             "rc": rc, "err": err, "fails": fails, "ctx": ctx, "nontrivial": nontrivial}
 
 
@@ -414,6 +421,7 @@ def report_fail(ck, rn, res):
             c = res["ops"][i].split()[0]
         rec = {"engine": "proto", "planner": res["planner"], "clause": clause, "ctx": c, "history": res["history"]}
         rec.update(history_flags(res["ops"], res["ctx"]))
+        rec["env"] = res.get("env", "open")
         key = (res["planner"], clause, c, rec["getpd"], rec["dirty"], rec["adds_start_later"], rec["multigoal"])
         if key in seen:
             continue
@@ -948,7 +956,7 @@ def run(ck):
     if ck.lean_ok:
         r = ck.rng.fork("lockstep")
         ljobs = []
-        lhs = {n: f for n, f in hs.items() if n not in ("mutpd", "mutpd-clear", "clearsol-sealed", "multigoal", "multigoal-blocks")}
+        lhs = {n: f for n, f in hs.items() if n not in ("mutpd", "mutpd-clear", "clearsol-sealed", "multigoal", "multigoal-blocks", "free-exact")}
         for planner in LOCKSTEP_CORE:
             lseeds = [seeds[planner], r.below(1000)] if quick else [seeds[planner]] + [r.below(1000) for _ in range(2)]
             for s in lseeds:
@@ -980,6 +988,8 @@ def expand_corpus_op(o):
     t = o.split()
     if t[0] in ("setpd", "setsg", "mutpd") and len(t) == 2 and t[1] in names:
         return q(t[0], names[t[1]])
+    if t[0] == "setpd" and len(t) == 2 and t[1] == "QAX":
+        return qx("setpd", QA, 2.220446049250313e-16)
     if t[0] == "setpdg" and len(t) == 2 and t[1] == "QG2":
         return qg("setpdg", QA[0], [QA[1], (0.55, 0.2)])
     if t[0] == "addstart" and len(t) == 2:
